@@ -1,7 +1,7 @@
 (* C12 Server handshake: upgrade iff the request is a valid opening handshake; correct 101.
    Only property theorems here; proofs are in Proofs/TokenP.v and Proofs/ServerP.v. *)
 Require Import WS.Base.Bytes WS.gen.Consts WS.Spec.Handshake WS.Model.Util WS.Model.Server.
-Require Import WS.Proofs.TokenP WS.Proofs.ServerP.
+Require Import WS.Proofs.TokenP WS.Proofs.ServerP WS.Proofs.ExtP.
 Import Lits.
 
 (* exact characterisation of the model's decision, for every request, setting, application
@@ -113,3 +113,67 @@ Theorem C12_key_and_digest_are_the_rfcs :
   (forall k, is_valid_challenge_key k = valid_key k) /\ (forall k, compute_accept_key k = accept_digest k).
 Proof. split; [exact challenge_key_is_valid_key|exact accept_key_is_digest]. Qed.
 Print Assumptions C12_key_and_digest_are_the_rfcs.
+
+(* ---- permessage-deflate against the quoted-string aware list of the Spec (Proofs/ExtP.v) ----
+   offers_pmd (Spec/Handshake.v) is what the correspondence check computes: some element of some
+   Sec-WebSocket-Extensions line -- elements end at commas OUTSIDE quoted strings, backslash
+   escapes included (split_list_q) -- is named permessage-deflate (the text before its first
+   semicolon, without surrounding OWS). *)
+(* every extension the parser reports sits in one element of that list and carries its name *)
+Theorem C12_reported_extension_is_a_list_element :
+  forall lines e, In e (parse_extensions lines) ->
+    exists l el, In l lines /\ In el (split_list_q false false [] l) /\ ext_elem_name el = ext_name e.
+Proof. exact parse_extensions_sound. Qed.
+(* soundness of the parser, for every list of lines (malformed lines, any octets): no side condition *)
+Theorem C12_deflate_found_only_if_offered :
+  forall lines e, first_deflate (parse_extensions lines) = Some e -> offers_pmd lines = true.
+Proof. exact first_deflate_offers. Qed.
+(* clause 111 of the correspondence check, on the model *)
+Theorem C12_compression_only_if_enabled_and_offered_in_list :
+  forall url u q rh hj wr resp sub, upgrade url u q rh hj wr = Upgraded resp true sub ->
+    u_compression u = true /\ offers_pmd (q_extensions q) = true.
+Proof. exact upgrade_compression_offered. Qed.
+(* completeness on lines inside the grammar ext_list_g (Proofs/ExtP.v section 7):
+   extension *( "," extension ), extension = OWS token OWS *( ";" OWS token OWS [ "=" OWS
+   ( token / quoted-string ) OWS ] ) *)
+Theorem C12_wellformed_offer_recognised :
+  forall lines l, In l lines -> ext_list_g l -> offers_pmd [l] = true ->
+    exists e, first_deflate (parse_extensions lines) = Some e.
+Proof. exact offer_recognised. Qed.
+Theorem C12_compression_iff_enabled_and_offered_in_list :
+  forall url u q rh hj wr resp c sub,
+    upgrade url u q rh hj wr = Upgraded resp c sub -> Forall ext_list_g (q_extensions q) ->
+    (c = true <-> u_compression u = true /\ offers_pmd (q_extensions q) = true).
+Proof. exact upgrade_compression_iff_offered. Qed.
+Print Assumptions C12_reported_extension_is_a_list_element.
+Print Assumptions C12_deflate_found_only_if_offered.
+Print Assumptions C12_compression_only_if_enabled_and_offered_in_list.
+Print Assumptions C12_wellformed_offer_recognised.
+Print Assumptions C12_compression_iff_enabled_and_offered_in_list.
+
+(* the tricky offers (byte lists in ExtP.ExtExamples; DQ = DQUOTE, BS = backslash):
+     foo; x=DQ a BS DQ , permessage-deflate, b BS DQ DQ                      no offer
+     foo; x=DQ a, permessage-deflate DQ                                      no offer
+     foo; x=DQ a BS BS DQ , permessage-deflate                               offer
+     foo; x=DQ BS DQ DQ , permessage-deflate; client_no_context_takeover     offer
+   and the model's parser agrees on each *)
+Import ExtExamples.
+Example C12_offer_escaped_quote_hides_commas :
+  offers_pmd [q_esc_quote] = false /\ first_deflate (parse_extensions [q_esc_quote]) = None.
+Proof. vm_compute. auto. Qed.
+Example C12_offer_comma_inside_quotes :
+  offers_pmd [q_comma] = false /\ first_deflate (parse_extensions [q_comma]) = None.
+Proof. vm_compute. auto. Qed.
+Example C12_offer_escaped_backslash_closes :
+  offers_pmd [q_esc_backslash] = true /\
+  first_deflate (parse_extensions [q_esc_backslash]) = Some [([], permessage_deflate)].
+Proof. vm_compute. auto. Qed.
+Example C12_offer_after_quoted_quote :
+  offers_pmd [q_only_quote] = true /\
+  first_deflate (parse_extensions [q_only_quote]) = Some [([], permessage_deflate); (client_nct, [])].
+Proof. vm_compute. auto. Qed.
+(* outside the grammar the converse fails: the parser drops a line at its first malformed element *)
+Example C12_offer_after_malformed_element_not_recognised :
+  offers_pmd [[97;32;98;44;32] ++ permessage_deflate] = true /\
+  first_deflate (parse_extensions [[97;32;98;44;32] ++ permessage_deflate]) = None.
+Proof. vm_compute. auto. Qed.
